@@ -5,6 +5,7 @@ import (
 	"fmt"
 	"math"
 	"math/big"
+	"sync"
 )
 
 const eps = 1.0 / (1 << 52)
@@ -186,4 +187,68 @@ func guarded(vals []float64) ([]float64, func() bool) {
 		}
 		return true
 	}
+}
+
+// concurrentSame: pure functions return the same value whichever other calls are in flight.  Every call is evaluated once
+// sequentially; then G goroutines go through the whole list at the same time, each from its own starting point and with its
+// own stride (so that at any moment the goroutines are inside calls with DIFFERENT parameters), and every result must be
+// bit-identical to the sequential one.  A value cache shared between calls, a scratch buffer kept in a package variable or a
+// memo updated in several steps shows up here and nowhere in a sequential replay.
+func concurrentSame(sum *Summary, what string, names []string, calls []func() float64) {
+	n := len(calls)
+	if n == 0 {
+		return
+	}
+	seq := make([]uint64, n)
+	for i, f := range calls {
+		seq[i] = math.Float64bits(f())
+	}
+	const G, rounds = 12, 30
+	strides := []int{1, 7, 11, 13, 17, 19, 23, 29, 31, 37, 41, 43}
+	type miss struct {
+		i   int
+		got uint64
+	}
+	out := make([][]miss, G)
+	var wg sync.WaitGroup
+	for g := 0; g < G; g++ {
+		wg.Add(1)
+		go func(g int) {
+			defer wg.Done()
+			defer func() {
+				if r := recover(); r != nil {
+					out[g] = append(out[g], miss{-1, 0})
+				}
+			}()
+			st := strides[g%len(strides)]
+			for st%n == 0 || gcd(st, n) != 1 {
+				st++
+			}
+			i := (g * n / G) % n
+			for k := 0; k < rounds*n; k++ {
+				if b := math.Float64bits(calls[i]()); b != seq[i] && len(out[g]) < 3 {
+					out[g] = append(out[g], miss{i, b})
+				}
+				i = (i + st) % n
+			}
+		}(g)
+	}
+	wg.Wait()
+	sum.Checks += G * rounds * n
+	for g := range out {
+		for _, m := range out[g] {
+			if m.i < 0 {
+				sum.viol("concurrent-panic", json.RawMessage(`{"concurrent":"`+what+`"}`), "%s: a call panicked when run concurrently with calls for other parameters", what)
+				continue
+			}
+			sum.viol("concurrent-differs", json.RawMessage(`{"concurrent":"`+what+`"}`), "%s: %s returned %v when other goroutines were calling with other parameters, %v when called alone", what, names[m.i], math.Float64frombits(m.got), math.Float64frombits(seq[m.i]))
+		}
+	}
+}
+
+func gcd(a, b int) int {
+	for b != 0 {
+		a, b = b, a%b
+	}
+	return a
 }
